@@ -62,6 +62,7 @@ type e2e struct {
 	desc       map[string]any
 	sig        map[string]bool
 	tmplLabels map[string]string
+	lateHash   bool // the NodePool template was edited and nodepool.hash has not reconciled the edit yet
 }
 
 func (x *e2e) pool() *v1.NodePool {
@@ -289,6 +290,24 @@ func runE2E(r *mon.Report, tier string, idx int, rng *rand.Rand) {
 		r.Violate("hash-controller-did-not-annotate", "after nodepool.hash Reconcile the NodePool carries no hash / current hash-version annotation", x.desc, nil)
 		return
 	}
+	// interleaving: a hashed template field is edited and NodeClaims are created from the edited NodePool BEFORE the
+	// nodepool.hash controller reconciles the edit (its annotation still describes the old template); the hash controller
+	// catches up right after the create. The fresh NodeClaim carries the new template and must not be reported Drifted.
+	if rng.Intn(3) == 0 {
+		if spec, what := x.templateEdit(x.pool()); spec != nil {
+			cand := x.pool().DeepCopy()
+			cand.Spec = *spec.DeepCopy()
+			if admitted, errs := world.AdmitNodePool(e.Ctx, cand); len(errs) == 0 {
+				e.Apply(admitted)
+				np = x.pool()
+				x.tmplLabels = copyLabels(np.Spec.Template.Labels)
+				x.lateHash = true
+				x.desc["editBeforeHashReconcile"] = what
+				x.sig["edit-before-hash:"+what] = true
+				r.Inc("cases_with_template_edit_before_hash_reconcile")
+			}
+		}
+	}
 	n := 0
 	if np.Spec.Replicas != nil {
 		// static NodePool: NodeClaims come from the real static provisioning controller, not from the scheduler
@@ -474,6 +493,13 @@ func (x *e2e) processClaim(create func() (string, error), reqDesc string, shape 
 			return
 		}
 		r.Inc("nodeclaims_created")
+		if x.lateHash {
+			x.lateHash = false
+			r.Inc("claims_created_before_hash_controller_caught_up")
+			if !x.reconcileHash() {
+				return
+			}
+		}
 		stored := x.claim(name)
 		if stored == nil {
 			r.Inconcl("case %d: created NodeClaim %s not in store", x.idx, name)
